@@ -58,7 +58,19 @@ type KV struct {
 	K string `json:"k"`
 	V AVal   `json:"v"`
 }
+// OEvent / OStatus: a span's events (time, name, attributes) and status (message, code): untouched by the write path, part of the payload
+type OEvent struct {
+	T     uint64 `json:"t"`
+	N     string `json:"n"`
+	Attrs []KV   `json:"attrs"`
+}
+type OStatus struct {
+	Msg  string `json:"msg"`
+	Code int32  `json:"code"`
+}
 type OSpan struct {
+	Events []OEvent `json:"events,omitempty"`
+	Status *OStatus `json:"status,omitempty"`
 	Tid   string `json:"tid"` // hex
 	Sid   string `json:"sid"`
 	Pid   string `json:"pid"`
@@ -293,13 +305,27 @@ func fromKVs(kvs []*common.KeyValue) []KV {
 }
 
 func toSpan(s OSpan) *trace.Span {
-	return &trace.Span{TraceId: unhex(s.Tid), SpanId: unhex(s.Sid), ParentSpanId: unhex(s.Pid), Name: s.Name,
+	sp := &trace.Span{TraceId: unhex(s.Tid), SpanId: unhex(s.Sid), ParentSpanId: unhex(s.Pid), Name: s.Name,
 		StartTimeUnixNano: s.Start, EndTimeUnixNano: s.End, Kind: trace.Span_SpanKind(s.Kind), Attributes: toKVs(s.Attrs)}
+	for _, e := range s.Events {
+		sp.Events = append(sp.Events, &trace.Span_Event{TimeUnixNano: e.T, Name: e.N, Attributes: toKVs(e.Attrs)})
+	}
+	if s.Status != nil {
+		sp.Status = &trace.Status{Message: s.Status.Msg, Code: trace.Status_StatusCode(s.Status.Code)}
+	}
+	return sp
 }
 
 func fromSpan(s *trace.Span) *OSpan {
-	return &OSpan{Tid: hex.EncodeToString(s.TraceId), Sid: hex.EncodeToString(s.SpanId), Pid: hex.EncodeToString(s.ParentSpanId),
+	o := &OSpan{Tid: hex.EncodeToString(s.TraceId), Sid: hex.EncodeToString(s.SpanId), Pid: hex.EncodeToString(s.ParentSpanId),
 		Name: s.Name, Start: s.StartTimeUnixNano, End: s.EndTimeUnixNano, Kind: int32(s.Kind), Attrs: fromKVs(s.Attributes)}
+	for _, e := range s.Events {
+		o.Events = append(o.Events, OEvent{T: e.TimeUnixNano, N: e.Name, Attrs: fromKVs(e.Attributes)})
+	}
+	if s.Status != nil {
+		o.Status = &OStatus{Msg: s.Status.Message, Code: int32(s.Status.Code)}
+	}
+	return o
 }
 
 func otlpBody(rs []ORes) []byte {
@@ -1166,6 +1192,21 @@ func genOtlp(r *rand.Rand, c *Case, depth int) {
 				} else {
 					sp.Attrs = genKVs(r, r.Intn(6), depth, nilOK)
 				}
+				if r.Intn(10) < 3 { // events and status: carried through the write path inside the payload, returned by the read path
+					for n := r.Intn(3); n > 0; n-- {
+						ev := OEvent{T: sp.Start + uint64(r.Intn(1000)), N: pick(r, []string{"exception", "", "retry", "é"}), Attrs: []KV{}}
+						if r.Intn(8) == 0 {
+							ev.T = 0
+						}
+						if r.Intn(2) == 0 {
+							ev.Attrs = genKVs(r, 1+r.Intn(2), 1, false)
+						}
+						sp.Events = append(sp.Events, ev)
+					}
+					if r.Intn(3) != 0 {
+						sp.Status = &OStatus{Msg: pick(r, []string{"", "boom", "é"}), Code: int32(r.Intn(3))}
+					}
+				}
 				sc = append(sc, sp)
 			}
 			res.Scopes = append(res.Scopes, sc)
@@ -1648,6 +1689,8 @@ func breakSpan(c *Case, i int) {
 	c.Zip[i].O = append(c.Zip[i].O, f("duration", JV{T: "b", B: true}))
 }
 
+var skipIDs = map[int]bool{}
+
 func gen(r *rand.Rand, id int, depth int) Case {
 	c := Case{ID: id, Otlp: []ORes{}, Zip: []JV{}}
 	c.SegSeed = r.Int63()
@@ -1662,7 +1705,11 @@ func gen(r *rand.Rand, id int, depth int) Case {
 	default:
 		c.SegMode = 3
 	}
-	switch id {
+	sid := id
+	if skipIDs[id] { // the quick tier leaves some of the large fixed requests to the thorough tier (SPANS_SKIP)
+		sid = -1
+	}
+	switch sid {
 	case 7:
 		genBig(r, &c)
 		return c
@@ -1754,6 +1801,11 @@ func main() {
 	// the read path prints decode errors with fmt.Println: keep them off our stdout
 	if fl.Out == "-" || fl.Out == "" {
 		fmt.Fprintln(os.Stderr, "spans: use --out <file> (the read path writes diagnostics to stdout)")
+	}
+	for _, x := range strings.Split(os.Getenv("SPANS_SKIP"), ",") {
+		if n, err := strconv.Atoi(x); err == nil {
+			skipIDs[n] = true
+		}
 	}
 	depth := 3
 	if os.Getenv("SPANS_DEPTH") != "" {
